@@ -1,6 +1,6 @@
 (* C06 — Table files and archives round-trip any chunk set.  Property theorems only. *)
 From Coq Require Import NArith List Bool Sorting.Permutation Sorting.Sorted.
-From Dolt Require Import Base.Str Gen.C01Consts C01.Model C01.Spec C01.Proofs C01.ProofsBytes C01.ProofsSort C01.ProofsTable C06.Model C06.Spec C06.Corr C06.Proofs.
+From Dolt Require Import Base.Str Gen.C01Consts C01.Model C01.Spec C01.Proofs C01.ProofsBytes C01.ProofsSort C01.ProofsTable C06.Model C06.Spec C06.Corr C06.Proofs C06.ProofsConjoin C06.ProofsArchive.
 Import ListNotations.
 Local Open Scope N_scope.
 
@@ -32,3 +32,69 @@ Theorem C06_table_roundtrip :
         /\ table_iterate crc decompress t = ROk (map (chunk_of content) rs).
 Proof. exact table_roundtrip. Qed.
 Print Assumptions C06_table_roundtrip.
+
+(* planTableConjoin's output is, byte for byte, the table file of the concatenated record
+   lists (plan order), whatever prefix-sorted order the merged tuples got *)
+Theorem C06_conjoin_is_table :
+  forall (crc : bytes -> N) (compress : bytes -> bytes) (content : addr -> bytes) ts srcs rss,
+    Forall2 (tbl_rep crc compress content) srcs rss ->
+    conjoin_with ts srcs = write_table_with ts (concat rss).
+Proof. exact conjoin_is_table. Qed.
+Print Assumptions C06_conjoin_is_table.
+
+Theorem C06_conjoin_default_valid :
+  forall (crc : bytes -> N) (compress : bytes -> bytes) (content : addr -> bytes) srcs rss,
+    Forall2 (tbl_rep crc compress content) srcs rss ->
+    valid_tuples (sort_tuples (conjoin_tuples 0 (map t_ix srcs))) (concat rss).
+Proof. exact conjoin_default_valid. Qed.
+Print Assumptions C06_conjoin_default_valid.
+
+(* the conjoined file re-opens from its bytes and serves exactly the union of its inputs
+   (an address stored in several inputs is stored several times and served from one of the
+   equal copies); counts and sizes add up *)
+Theorem C06_conjoin_roundtrip :
+  forall (crc : bytes -> N) (compress : bytes -> bytes) (decompress : bytes -> option bytes),
+    (forall d, decompress (compress d) = Some d) ->
+    forall (content : addr -> bytes) ts srcs rss,
+      Forall2 (tbl_rep crc compress content) srcs rss ->
+      valid_tuples ts (concat rss) -> table_fits (concat rss) ->
+      exists t, open_table (conjoin_with ts srcs) = Some t
+        /\ table_count t = sum_N (map nlen rss)
+        /\ table_unc t = sum_N (map total_unc rss)
+        /\ (forall h, table_has t h = in_tables rss h)
+        /\ (forall h, table_get crc decompress t h = ROk (if in_tables rss h then Some (content h) else None)).
+Proof. exact conjoin_roundtrip. Qed.
+Print Assumptions C06_conjoin_roundtrip.
+
+(* archive index search: position of h in the address-sorted chunk list iff stored *)
+Theorem C06_find_index_spec :
+  forall (l : list addr) (h : addr), addrs_sorted l ->
+    find_index (map fst l) (map snd l) h = Some (addr_index l h 0).
+Proof. exact find_index_spec. Qed.
+Print Assumptions C06_find_index_spec.
+
+Theorem C06_find_index_present :
+  forall l h, addrs_sorted l ->
+    (exists i, find_index (map fst l) (map snd l) h = Some (Some i)) <-> In h l.
+Proof. exact find_index_present. Qed.
+Print Assumptions C06_find_index_present.
+
+(* byte level: the archive index block (span ends / prefixes / chunk refs / suffixes) written by
+   archiveWriter.writeIndex decodes to the arrays the reader works on *)
+Theorem C06_archive_index_roundtrip :
+  forall span_lens staged, archive_fits span_lens (sort_achunks staged) ->
+    parse_archive_index (nlen span_lens) (nlen staged) (archive_index_bytes span_lens staged)
+    = Some (written_aindex span_lens staged).
+Proof. exact archive_index_roundtrip. Qed.
+Print Assumptions C06_archive_index_roundtrip.
+
+(* archive round trip at the index level, from the bytes: findIndex (interpolation search +
+   suffix scan) and the chunk-reference lookup return exactly the reference staged for h *)
+Theorem C06_archive_roundtrip :
+  forall span_lens staged h,
+    NoDup (map fst staged) -> archive_fits span_lens (sort_achunks staged) ->
+    option_map (fun ai => archive_lookup ai h)
+               (parse_archive_index (nlen span_lens) (nlen staged) (archive_index_bytes span_lens staged))
+    = Some (Some (aref_of staged h)).
+Proof. exact archive_roundtrip. Qed.
+Print Assumptions C06_archive_roundtrip.
